@@ -196,6 +196,10 @@ def perturb(c, tc, p):
         c[k] = wr
     for nm, v in zip(("SEAWEED", "METHANE_SCP", "CELLULOSIC_SUGAR"), p["caps"]):
         c["inputs"]["MAX_%s_AS_PERCENT_KCALS_HUMANS" % nm] = v
+    # the shares of the resilient foods in the month's feed and biofuel charge
+    for tag in ("FEED", "BIOFUEL"):
+        for nm, v in zip(("SEAWEED", "METHANE_SCP", "CELLULOSIC_SUGAR"), p.get("caps_" + tag.lower(), ())):
+            c["inputs"]["MAX_%s_AS_PERCENT_KCALS_%s" % (nm, tag)] = v
     tc["feed"].kcals = np.asarray(tc["feed"].kcals, float) * p["charge"]
     tc["biofuel"].kcals = np.asarray(tc["biofuel"].kcals, float) * p["charge"]
     tc["nonhuman_consumption"] = tc["feed"] + tc["biofuel"]
@@ -207,7 +211,9 @@ series_factor = st.lists(factor, min_size=1, max_size=1) | st.lists(st.floats(0,
 perturbation = st.fixed_dictionaries(dict(
     stored=factor, crops=series_factor, meat=series_factor, milk=factor, fish=factor, greenhouse=factor, scp=factor, cs=factor, seaweed=factor,
     waste=st.sampled_from([0.0, 24.98]) | st.floats(0, 60), caps=st.lists(st.sampled_from([10.0, 40.0, 100.0]) | st.floats(0, 100), min_size=3, max_size=3),
-    charge=st.sampled_from([0.0, 1.0]) | st.floats(0, 1)))
+    charge=st.sampled_from([0.0, 1.0]) | st.floats(0, 1),
+    caps_feed=st.lists(st.sampled_from([10.0, 0.0, 100.0]) | st.floats(0, 100), min_size=3, max_size=3),
+    caps_biofuel=st.lists(st.sampled_from([10.0, 0.0, 100.0]) | st.floats(0, 100), min_size=3, max_size=3)))
 
 
 def perturb_animals(c, tc, p):
@@ -223,6 +229,14 @@ def perturb_animals(c, tc, p):
     tc["cellulosic_sugar"].kcals = np.asarray(tc["cellulosic_sugar"].kcals, float) * (1 + p["cs"] / 3.0)
     tc["max_feed_that_could_be_used"].kcals = np.asarray(tc["max_feed_that_could_be_used"].kcals, float) * p["charge"] * 2.0
     tc["max_biofuel_that_could_be_used"].kcals = np.asarray(tc["max_biofuel_that_could_be_used"].kcals, float) * p["milk"] / 1.5
+    # this round caps the resilient foods' share against the charge it was handed (the pipeline hands it zero: no resilient food can
+    # go to feed here); with a non-zero charge and redrawn shares those rows of the programme are exercised at other values than zero
+    if "caps_feed" in p:
+        tc["feed"].kcals = np.asarray(tc["max_feed_that_could_be_used"].kcals, float) * p["greenhouse"] / 3.0
+        tc["biofuel"].kcals = np.asarray(tc["max_biofuel_that_could_be_used"].kcals, float) * p["fish"] / 3.0
+        for tag in ("FEED", "BIOFUEL"):
+            for nm, v in zip(("SEAWEED", "METHANE_SCP", "CELLULOSIC_SUGAR"), p["caps_" + tag.lower()]):
+                c["inputs"]["MAX_%s_AS_PERCENT_KCALS_%s" % (nm, tag)] = v
     return c, tc
 
 
@@ -265,7 +279,7 @@ def run_case(ctx, iso3, options, perts, title):
         ctx.event("perturbed_solved")
         compare(ctx, "to_humans", c2, tc2, obj, case, "%s perturbed lp" % iso3)
     animals = [cap for cap in caps if cap["type"] == "to_animals"]
-    for j, p in enumerate(perts[:1] if animals else []):
+    for j, p in enumerate(perts if animals else []):
         cap = animals[0]
         c2, tc2 = perturb_animals(cap["consts"], cap["tc"], p)
         case = dict(kind="perturbed_animals", iso3=iso3, options=options, perturbation=p)
